@@ -3,6 +3,7 @@
 package gen
 
 import (
+	"encoding/binary"
 	"encoding/hex"
 	"fmt"
 
@@ -31,21 +32,47 @@ func Len(t *rapid.T, label string, max int) int {
 	}
 }
 
-// BytesN draws exactly n bytes; content uniform, sometimes constant or repeating.
+// Uniform draws an index in [0,n) with (nearly) equal weights. rapid's own integer generators and
+// SampledFrom favour small values and the ends of a range (measured: the first two items of a
+// 47-item SampledFrom get 11 % each, 0 and 1 are 5 % each of the Uint64 draws), which is what one
+// wants for sizes but not for "which kind" choices: late kinds of a long list would get 1 % of the
+// cases. The index is taken from a mix of eight byte draws; shrinking still works (it drives the
+// bytes to zero, which maps to one fixed index).
+func Uniform(t *rapid.T, label string, n int) int {
+	if n <= 1 {
+		return 0
+	}
+	v := binary.LittleEndian.Uint64(rapid.SliceOfN(rapid.Byte(), 8, 8).Draw(t, label))
+	return int(binary.LittleEndian.Uint64(Expand(v, 8)) % uint64(n))
+}
+
+// Pick draws one of items with (nearly) equal weights (see Uniform).
+func Pick[T any](t *rapid.T, label string, items []T) T {
+	return items[Uniform(t, label, len(items))]
+}
+
+// OneIn is true about once in n calls (see Uniform).
+func OneIn(t *rapid.T, label string, n int) bool {
+	return Uniform(t, label, n) == n/2
+}
+
+// BytesN draws exactly n bytes; content uniform, with a small share (3 in 40) of constant or
+// repeating fills. (The share was 3 in 12 by IntRange, which rapid's bias turned into 39 %: two
+// fifths of all "drawn" keys and seeds were one of three constants.)
 func BytesN(t *rapid.T, label string, n int) []byte {
 	if n == 0 {
 		return []byte{}
 	}
-	switch rapid.IntRange(0, 11).Draw(t, label+"_fill") {
-	case 0:
+	switch Uniform(t, label+"_fill", 40) {
+	case 7:
 		return make([]byte, n)
-	case 1:
+	case 21:
 		b := make([]byte, n)
 		for i := range b {
 			b[i] = 0xff
 		}
 		return b
-	case 2:
+	case 33:
 		b := make([]byte, n)
 		for i := range b {
 			b[i] = byte(i)
